@@ -13,6 +13,13 @@
 // The chunk being written may be old, new, absent or unreadable (classified and counted only).
 // Both device variants (with and without io.WriterAt) are explored: their write sequences are
 // issued by different code paths.
+//
+// A second driver (xsearch.go, device in oslike.go) runs small searches of the same kind first:
+// on a device with the whole method set of *os.File (truncations are physical operations too),
+// with every crash image of short histories also re-opened through region.Open on a real file,
+// with histories that contain one crash + re-open and go on writing afterwards (the interrupted
+// chunk is unspecified until rewritten, all others stay specified), and with zero-length writes
+// as ordinary, expanded operations (the chunk written that way is unspecified, the others are not).
 package main
 
 import (
@@ -20,6 +27,7 @@ import (
 	"fmt"
 	"os"
 	"runtime/pprof"
+	"strings"
 	"sync"
 	"sync/atomic"
 	"time"
@@ -32,13 +40,16 @@ import (
 // Case is the replayable descriptor of one judged crash image: History[:n-1] is replayed, the
 // last operation (a WriteSector) is executed with write logging, and the image at Point is judged.
 type Case struct {
-	Variant int                `json:"variant"`
-	Device  string             `json:"device"`
-	Search  string             `json:"search,omitempty"`
-	History []regionx.Op       `json:"history"`
-	Point   regionx.CrashPoint `json:"point"`
-	Writes  []string           `json:"writes"` // human-readable: offset+length of each physical write
-	Text    string             `json:"text"`
+	Variant int          `json:"variant"`
+	Device  string       `json:"device"`
+	Search  string       `json:"search,omitempty"`
+	History []regionx.Op `json:"history,omitempty"`
+	// XHistory (instead of History) for cases of the os.File-like driver (xsearch.go): operations
+	// may include one crash + re-open ("C").
+	XHistory []xop              `json:"xhistory,omitempty"`
+	Point    regionx.CrashPoint `json:"point"`
+	Writes   []string           `json:"writes"` // human-readable: offset+length of each physical write
+	Text     string             `json:"text"`
 }
 
 var (
@@ -89,7 +100,7 @@ func record(search string, variant int, hist []regionx.Op, cp regionx.CrashPoint
 		size := len(hist)*1000 + weight(hist) + cp.J*10
 		rep.FailLazy(f.Class, size, func() engine.Failure {
 			return engine.Failure{Detail: fmt.Sprintf("%s | device=%s history: %s | crash after %d bytes of physical write %d of %v", f.Detail, regionx.VariantNames[variant], regionx.HistString(hist), cp.Cut, cp.J, describe(ws)),
-				Case: Case{variant, regionx.VariantNames[variant], search, append([]regionx.Op(nil), hist...), cp, describe(ws), regionx.HistString(hist)}}
+				Case: Case{Variant: variant, Device: regionx.VariantNames[variant], Search: search, History: append([]regionx.Op(nil), hist...), Point: cp, Writes: describe(ws), Text: regionx.HistString(hist)}}
 		})
 	}
 }
@@ -247,7 +258,7 @@ func plan(thorough bool) []search {
 
 func main() {
 	rep = engine.NewReport("C15")
-	rep.Rule = "for every WriteSector transition (state, coordinate, size) of the explicit-state BFS graph over region histories: every crash image = pre-state + a prefix of the recorded physical writes, the write in flight cut at every 512-byte boundary (absolute and relative), at every byte if it has <= 8 bytes, else at its first and last byte. distinct = (state, operation, crash point) triples, each built once by construction; non-trivial = images of transitions whose pre-state holds at least one OTHER chunk (something that could be damaged)"
+	rep.Rule = "for every WriteSector transition (state, coordinate, size) of the explicit-state BFS graph over region histories: every crash image = pre-state + a prefix of the recorded physical writes, the write in flight cut at every 512-byte boundary (absolute and relative), at every byte if it has <= 8 bytes, else at its first and last byte. distinct = (state, operation, crash point) triples, each built once by construction; non-trivial = images of transitions whose pre-state holds at least one OTHER chunk (something that could be damaged). Second driver (os_device_searches): the same enumeration on a device with the method set of *os.File where truncations are physical operations (atomic), images of short histories additionally re-opened with region.Open on a real file, histories with one crash + re-open at every sound crash image of every write followed by all operation sequences up to the stated length (the interrupted chunk is exempt until a later write of it completes), and zero-length writes as expanded operations (the chunk written that way is exempt)"
 	regionx.InstallClock()
 	regionx.StartWatchdog(20*time.Second, func(variant int, hist []regionx.Op) {
 		// the crash images of this call cannot be built at all: it never returns
@@ -267,13 +278,19 @@ func main() {
 	selftest()
 	var searches []map[string]any
 	maxDepth, fix := 0, false
-	deadline := time.Now().Add(50 * time.Second)
-	if rep.Thorough() {
-		deadline = time.Now().Add(13 * time.Minute)
+	// the small searches of the second driver first, on their own time shares (a few seconds of CPU
+	// in the quick tier); the shared-driver searches then get the budget they always had
+	deadline := time.Now().Add(13 * time.Minute)
+	runX(deadline)
+	if !rep.Thorough() {
+		deadline = time.Now().Add(50 * time.Second)
 	}
 	for _, s := range plan(rep.Thorough()) {
 		for _, variant := range []int{regionx.MemWriterAt, regionx.MemPlain} {
 			name := s.name + "/" + regionx.VariantNames[variant]
+			if !wanted(name) {
+				continue
+			}
 			cfg := &regionx.Config{Name: name, Variant: variant, Alpha: s.alpha, MaxDepth: s.depth,
 				Deadline: minTime(deadline, time.Now().Add(s.share)), ReadCtx: s.readCtx, Ticks: false, WantPre: true, Hook: hook(name)}
 			t0 := time.Now()
@@ -308,8 +325,8 @@ func main() {
 	rep.Count("write_transitions_skipped_pre_state_already_inconsistent(C14 territory)", preBad)
 	rep.NonTrivial(nontriv)
 	rep.AddTraces(writesTr)
-	rep.Sample(Case{0, "mem+WriterAt", "example", []regionx.Op{{K: "W", X: 1, Z: 0, Size: 4093}, {K: "W", X: 0, Z: 1, Size: 1}, {K: "W", X: 1, Z: 0, Size: 1}, {K: "W", X: 0, Z: 1, Size: 8189}},
-		regionx.CrashPoint{J: 0, Cut: 3}, []string{"W0 header-location off=128 len=4", "W1 header-timestamp off=4224 len=4", "W2 length-word", "W3 payload"}, "grow into freed space, crash with the location word torn after 3 bytes"})
+	rep.Sample(Case{Variant: 0, Device: "mem+WriterAt", Search: "example", History: []regionx.Op{{K: "W", X: 1, Z: 0, Size: 4093}, {K: "W", X: 0, Z: 1, Size: 1}, {K: "W", X: 1, Z: 0, Size: 1}, {K: "W", X: 0, Z: 1, Size: 8189}},
+		Point: regionx.CrashPoint{J: 0, Cut: 3}, Writes: []string{"W0 header-location off=128 len=4", "W1 header-timestamp off=4224 len=4", "W2 length-word", "W3 payload"}, Text: "grow into freed space, crash with the location word torn after 3 bytes"})
 	if stopProf != nil {
 		stopProf()
 	}
@@ -318,6 +335,7 @@ func main() {
 }
 
 func selftest() {
+	xselftest()
 	// Cuts: a 4-byte header word is cut at 1,2,3; a payload write at sector offset +4 is cut at
 	// absolute 512 boundaries (relative 508, 1020, ...), relative 512 multiples, first and last byte.
 	if c := regionx.Cuts(regionx.PWrite{Off: 128, Data: make([]byte, 4)}); fmt.Sprint(c) != "[1 2 3]" {
@@ -369,8 +387,13 @@ func replay() {
 		engine.HarnessError("cannot load replay: %v", err)
 	}
 	var c Case
-	if err := json.Unmarshal(rp.Case, &c); err != nil || len(c.History) == 0 {
+	if err := json.Unmarshal(rp.Case, &c); err != nil || (len(c.History) == 0 && len(c.XHistory) == 0) {
 		engine.HarnessError("bad case: %v", err)
+	}
+	if len(c.XHistory) > 0 {
+		replayXCase(c)
+		rep.Finish()
+		return
 	}
 	n := len(c.History) - 1
 	fmt.Printf("replaying on %s: %s, crash point %+v\n", regionx.VariantNames[c.Variant], regionx.HistString(c.History), c.Point)
@@ -403,6 +426,19 @@ func replay() {
 	}
 	rep.Finish()
 }
+
+// wanted implements the development aid VERIF_C15_ONLY=<substring>: run only the searches whose
+// name contains it (the run is then capped: not the stated space).
+func wanted(name string) bool {
+	only := os.Getenv("VERIF_C15_ONLY")
+	if only == "" {
+		return true
+	}
+	onlyOnce.Do(func() { rep.Cap("VERIF_C15_ONLY=%s: only the searches with that name fragment were run", only) })
+	return strings.Contains(name, only)
+}
+
+var onlyOnce sync.Once
 
 func minTime(a, b time.Time) time.Time {
 	if a.Before(b) {
